@@ -641,7 +641,7 @@ func init() {
 	explore.Register(&explore.Check{ID: "C09", Run: func(rc *explore.RunCtx) {
 		depth, gdepth := 5, 5
 		if !rc.Quick() {
-			depth, gdepth = 7, 7
+			depth, gdepth = 6, 6
 		}
 		rc.Set("depth_bound", depth)
 		rc.Set("group_depth_bound", gdepth)
